@@ -74,7 +74,74 @@ def boot(config="fallback"):
     elif config != "fallback":
         raise ValueError(config)
     _booted.update(config=config, ps=pyspike, emu=emu)
+    if os.environ.get("VP_NO_POISON") != "1":
+        _booted["poisoned_modules"] = install_poison()
     return pyspike
+
+
+class PoisonNumpy(object):
+    """M8 - what the code under test sees as `np`: numpy, except that np.empty / np.empty_like hand out memory filled
+    with a poison pattern (NaN for floating dtypes, a large negative sentinel for integers) instead of whatever the
+    allocator happens to return.  Memory from np.empty is *unspecified*; correct code writes every element it later
+    exposes, so the poison can never reach a result.  Code that relies on fresh pages being zero - right in a first
+    call, wrong once the allocator recycles a block - shows NaN in its output and is caught by the ordinary oracles."""
+    INT_POISON = -(2 ** 62) + 12345
+
+    def __init__(self, np):
+        object.__setattr__(self, "_np", np)
+        object.__setattr__(self, "poisoned_allocations", 0)
+
+    def __getattr__(self, name):
+        return getattr(self._np, name)
+
+    def _fill(self, a):
+        np = self._np
+        object.__setattr__(self, "poisoned_allocations", self.poisoned_allocations + 1)
+        if a.dtype.kind in "fc":
+            a.fill(np.nan)
+        elif a.dtype.kind in "iu":
+            a.fill(self.INT_POISON if a.dtype.itemsize >= 8 else -12345)
+        elif a.dtype.kind == "b":
+            a.fill(True)
+        return a
+
+    def empty(self, *args, **kw):
+        return self._fill(self._np.empty(*args, **kw))
+
+    def empty_like(self, *args, **kw):
+        return self._fill(self._np.empty_like(*args, **kw))
+
+
+POISON = None
+
+
+def install_poison():
+    """replace the global `np` of every module of the code under test (and of the emulated .pyx modules)"""
+    global POISON
+    import numpy
+    if POISON is None:
+        POISON = PoisonNumpy(numpy)
+    n = 0
+    import importlib
+    for lazy in ("pyspike.cython.python_backend", "pyspike.cython.directionality_python_backend"):
+        try:     # the fallbacks are imported lazily by the front ends: load them now so that they are covered
+            importlib.import_module(lazy)
+        except ImportError:
+            pass
+    for name, mod in list(sys.modules.items()):
+        if mod is None or not (name == "pyspike" or name.startswith("pyspike.")):
+            continue
+        d = getattr(mod, "__dict__", {})
+        for alias in ("np", "numpy"):
+            if d.get(alias) is numpy:
+                d[alias] = POISON
+                n += 1
+    return n
+
+
+def poison_stats():
+    return {"modules_with_poisoned_numpy": _booted.get("poisoned_modules", 0),
+            "poisoned_allocations": POISON.poisoned_allocations if POISON is not None else 0}
 
 
 def emu_modules():
